@@ -246,9 +246,8 @@ const KEYS: &[&str] = &["k", "user_id", "cl\u{e9}", "nokey", "a b", "9", ":", "a
 
 fn lit_of(c: char, rng: &mut Rng, in_arg: bool) -> Lit {
     if is_special(c) {
-        let esc = if in_arg && c == ')' {
-            Esc::B
-        } else if rng.chance(1, 2) {
+        let _ = in_arg; // since 185a57e `))` is an escape inside arguments too
+        let esc = if rng.chance(1, 2) {
             Esc::D
         } else {
             Esc::B
@@ -464,6 +463,46 @@ pub fn gen(rng: &mut Rng, n: usize, thorough: bool, emit: &mut dyn FnMut(String)
             emit(case_line(&p, &full));
         }
     }
+    // 3b. `)` inside arguments in both escape styles: in the middle, last before the closer, runs
+    //     of 1..=5, in every kind of argument (group body, date format, MDC key and default)
+    for run in 1..=5usize {
+        for style in 0..3 {
+            let lits: Vec<Lit> = (0..run)
+                .map(|i| Lit { c: ')', esc: match style { 0 => Esc::D, 1 => Esc::B, _ => if i % 2 == 0 { Esc::D } else { Esc::B } } })
+                .collect();
+            let pats: Vec<Pat> = lits.iter().cloned().map(Pat::Lit).collect();
+            for pos in 0..3 {
+                // 0: run last before the closer, 1: run in the middle, 2: run first
+                let mut body = vec![];
+                if pos != 2 {
+                    body.push(lit('a', Esc::P));
+                }
+                body.extend(pats.iter().cloned());
+                if pos != 0 {
+                    body.push(leaf("m"));
+                }
+                for k in ['a', 'h'] {
+                    emit(case_line(&[lit('<', Esc::P), Pat::Group(k, false, body.clone(), None), lit('>', Esc::P)], &full));
+                    emit(case_line(&[Pat::Group(k, true, vec![Pat::Group('a', false, body.clone(), spec(None, Some(true), Some("9"), None))], None)], &full));
+                }
+                let mut txt: Vec<Lit> = vec![];
+                if pos != 2 {
+                    txt.push(Lit { c: 'k', esc: Esc::P });
+                }
+                txt.extend(lits.iter().cloned());
+                if pos != 0 {
+                    txt.push(Lit { c: 'z', esc: Esc::P });
+                }
+                let mut rec = full.clone();
+                let key: String = txt.iter().map(|l| l.c).collect();
+                rec.mdc.retain(|kv| kv.0 != key);
+                rec.mdc.push((key, "hit".into()));
+                emit(case_line(&[Pat::Mdc(false, txt.clone(), None, None)], &rec));
+                emit(case_line(&[Pat::Mdc(true, plain_lits("nokey"), Some(txt.clone()), None)], &rec));
+                emit(case_line(&[Pat::Date(false, Some((txt.clone(), Some(true))), None)], &base));
+            }
+        }
+    }
     // 4. MDC hit / miss / default, date with and without zone
     for key in KEYS {
         for dflt in [None, Some("dflt"), Some("\u{4e2d} x"), Some("{(\\)}")] {
@@ -496,7 +535,7 @@ pub fn gen(rng: &mut Rng, n: usize, thorough: bool, emit: &mut dyn FnMut(String)
             ps.push(Pat::Leaf(THREAD_ID, true, None));
         }
         if i % 50 == 1 {
-            ps.push(Pat::Group('a', false, vec![lit(')', Esc::D), leaf("m")], None));
+            ps.push(Pat::Group('a', false, vec![lit(')', Esc::D), leaf("m"), lit(')', Esc::D), lit(')', Esc::D)], None));
         }
         if i % 50 == 2 {
             ps.push(Pat::Mdc(false, vec![Lit { c: 'k', esc: Esc::P }, Lit { c: '{', esc: Esc::D }], None, None));
